@@ -2180,3 +2180,157 @@ def _(ctx):
             ctx.reachable(ex, o.path, "from_unixtime panics for a huge timestamp: " + o.msg, ("m_replay_huge_line", [(3, "u8")]))
         else:
             ctx.part.queries += 1
+
+
+
+# ============================================================================ C01 / C04: one slot per line (set_text line splitting)
+def set_text_lines(ctx, max_lines):
+    import itertools
+    ex = new_exec("real")
+    fields = struct_fields("src/session.rs", "Session")
+    parts_idx = fields.index("text_parts")
+    fn = find_fn("set_text")
+    ctx.part.functions.append("session::Session::set_text")
+    n_ok = 0
+    for n in range(1, max_lines + 1):
+        for seps in itertools.product(("\n", "\r\n"), repeat=n - 1):
+            me = SymV(ex, "session%d_%s" % (n, "".join("c" if s_ == "\r\n" else "l" for s_ in seps)), "session::Session")
+            lines = []
+            for i in range(n):
+                l = z3.String("line%d" % i)
+                ex.inputs["line%d" % i] = l
+                lines.append(StrV(l))
+            text = TextV(lines, list(seps))
+            outs = list(ex.run(fn, [RefV(me), text], Path()))
+            ctx.paths += len(outs)
+            # native witness: the separators and which lines are empty (the other lines are "1")
+            rp = ("k_replay_set_text_lines", [(n, "u8")] + [(1 if s_ == "\r\n" else 0, "u8") for s_ in seps]
+                  + [(l.term() == z3.StringVal(""), "bool") for l in lines])
+            shown = [s_.encode("unicode_escape").decode() for s_ in seps]
+            for o in outs:
+                if o.kind == "panic":
+                    ctx.reachable(ex, o.path, "set_text can panic: " + o.msg, rp)
+                    continue
+                parts = o.path.stores.get((me.path, parts_idx))
+                ctx.part.queries += 1
+                if not isinstance(parts, VecV):
+                    ctx.reachable(ex, o.path, "set_text does not store the lines of the text (stored: %r)" % (parts,), rp)
+                elif len(parts.items) != n:
+                    ctx.reachable(ex, o.path, "a text of %d lines separated by %s is split into %d parts: lines are lost or merged" % (n, shown, len(parts.items)), rp)
+                else:
+                    same = z3.And([parts.items[i].term() == lines[i].term() for i in range(n)]) if all(isinstance(x, StrV) for x in parts.items) else z3.BoolVal(False)
+                    if ctx.claim(ex, o.path, same, "a line of a text separated by %s is not stored as it was written (separator kept or lines merged)" % shown, rp) == "unsat":
+                        n_ok += 1
+    if not n_ok and not ctx.failures:
+        ctx.failures.append(("set_text: no path stored the expected lines", {}, None))
+
+
+@spec("C01", "m_set_text_lines", "Session::set_text (MIR; the text is l1 sep1 l2 ... with symbolic lines free of CR/LF and every separator pattern over {LF, CRLF} for <= 4 lines, also mixed): on every path - regex available or its fallback - exactly one part per line is stored, each equal to its line (Regex::split is modelled only for the constant pattern \\r\\n|\\n)")
+def _(ctx):
+    set_text_lines(ctx, 4)
+
+
+@spec("C04", "m_set_text_lines", "same check registered for C04: each line of a newly set text is evaluated exactly once presupposes that set_text stores exactly the lines")
+def _(ctx):
+    set_text_lines(ctx, 4)
+
+
+
+# ============================================================================ C07: format_number (grouping, sign, separators, fraction)
+def _char_term(c):
+    return z3.StringVal(c[1]) if c[0] == "c" else z3.StrFromCode(48 + c[1])
+
+
+def _cat(parts):
+    parts = [p for p in parts if p is not None]
+    if not parts:
+        return z3.StringVal("")
+    return parts[0] if len(parts) == 1 else z3.Concat(*parts)
+
+
+def _grouped(digs, ts):
+    parts, n = [], len(digs)
+    for i, c in enumerate(digs):
+        parts.append(_char_term(c))
+        if i != n - 1 and (n - 1 - i) % 3 == 0:
+            parts.append(ts)
+    return parts
+
+
+def format_number_spec(ctx, relerr, n_values, max_int, max_fract, modes):
+    """format_number(x, ts, ds, N, remove, rounding) against the rule of the property, for every real x with
+    |x| < 10^max_int - 1, symbolic separator strings, N in n_values; rendering of floats by contract (models.render_*)"""
+    ctx.part.functions.append("formatter::format_number")
+    models.FMT_MAX_INT_DIGITS[0] = max_int
+    models.FMT_MAX_FRACT[0] = max_fract
+    n_ret = 0
+    for N in n_values:
+        for remove in (True, False):
+            for rounding in modes:
+                ex = new_exec("real")
+                models.install_fmt(ex)
+                ex.relerr = relerr
+                x = ex.fsym("x")
+                ts, ds = z3.String("ts"), z3.String("ds")
+                ex.inputs["ts"], ex.inputs["ds"] = ts, ds
+                ax = z3.If(x.t >= 0, x.t, -x.t)
+                ex.assumptions.append(ax < 10 ** max_int - 1)
+                if not rounding:
+                    m = z3.Int("x_scaled")
+                    ex.assumptions.append(x.t * (10 ** max_fract) == z3.ToReal(m))
+                rp = ("m_replay_format_number", [(x.t, "f64"), (N, "u8"), (1 if remove else 0, "u8"), (1 if rounding else 0, "u8")])
+                label = "N=%d remove=%s rounding=%s" % (N, remove, rounding)
+                fn = find_fn("format_number")
+                args = [x, StrV(ts), StrV(ds), IntV(N, 8, False), z3.BoolVal(remove), z3.BoolVal(rounding)]
+                for o in ex.run(fn, args, Path()):
+                    ctx.paths += 1
+                    if o.kind == "panic":
+                        ctx.reachable(ex, o.path, "format_number can panic (%s): %s" % (label, o.msg), rp)
+                        continue
+                    if not isinstance(o.value, StrV):
+                        raise Unsupported("format_number returned %r" % (o.value,))
+                    n_ret += 1
+                    got = o.value.term()
+                    sign = z3.If(x.t < 0, z3.StringVal("-"), z3.StringVal(""))
+                    if rounding:
+                        r = models.round_half_even(ax * (10 ** N))
+                        for l in range(1, max_int + 1):
+                            cond = models.int_digit_range(r, l, N)
+                            pl = o.path.add(cond)
+                            if not ex.feasible(pl):
+                                continue
+                            digs = models.digits_of(r, l + N)
+                            frac = digs[l:]
+                            all_zero = z3.And([c[1] == 0 for c in frac]) if frac else z3.BoolVal(True)
+                            shown = z3.BoolVal(False) if N == 0 else (z3.Not(all_zero) if remove else z3.BoolVal(True))
+                            want = _cat([sign] + _grouped(digs[:l], ts) + [z3.If(shown, _cat([ds] + [_char_term(c) for c in frac]), z3.StringVal(""))])
+                            ctx.claim(ex, pl, got == want, "format_number (%s, %d integer digits): the output is not [-] + the integer digits of x rounded to N digits grouped in threes + [decimal separator + the N fraction digits unless removed as all-zero]" % (label, l), rp)
+                    else:
+                        for k in range(0, max_fract + 1):
+                            y = ax * (10 ** k)
+                            r = z3.ToInt(y)
+                            exact = z3.And(z3.ToReal(r) == y, r % 10 != 0 if k > 0 else z3.BoolVal(True))
+                            for l in range(1, max_int + 1):
+                                pl = o.path.add(z3.And(exact, models.int_digit_range(r, l, k)))
+                                if not ex.feasible(pl):
+                                    continue
+                                digs = models.digits_of(r, l + k)
+                                want = _cat([sign] + _grouped(digs[:l], ts) + ([ds] + [_char_term(c) for c in digs[l:]] if k > 0 else []))
+                                ctx.claim(ex, pl, got == want, "format_number (%s, rounding off, %d integer and %d fraction digits): the output is not [-] + grouped integer digits + [decimal separator + the fraction digits]" % (label, l, k), rp)
+    if not n_ret:
+        ctx.failures.append(("format_number: no returning path", {}, None))
+
+
+@spec("C07", "m_format_number", "formatter::format_number (MIR; float -> decimal text by contract: {:.N} gives the digits of round-half-even(|x| 10^N), {} the shortest exact text): for every real |x| < 10^7, N in 0..3, both removal settings, symbolic separator strings: output = [-] + integer digits grouped in threes by the thousands separator + [decimal separator + N fraction digits], the fraction omitted exactly when removal is on and all printed fraction digits are 0; rounding off: values with <= 3 fraction digits print all their digits; no panic")
+def _(ctx):
+    format_number_spec(ctx, False, [0, 1, 2, 3], 7, 3, (True, False))
+
+
+@spec("C07", "m_format_number_digits_10", "format_number with N = 10 and N = 19 digits (10^N exceeds u32 / u64): no panic, same output rule (|x| < 1000)")
+def _(ctx):
+    format_number_spec(ctx, False, [10, 19], 3, 0, (True,))
+
+
+@spec("C07", "m_format_number_fp_margin", "same rule with every float multiplication/division of the code carrying a relative rounding error |e| <= 2^-53 (sound over-approximation of IEEE double arithmetic): the printed digits must not depend on a second, separately rounded computation (|x| < 10^4, N in 0..2)")
+def _(ctx):
+    format_number_spec(ctx, True, [0, 1, 2], 4, 0, (True,))
